@@ -18,6 +18,7 @@ import (
 	"encoding/json"
 	"fmt"
 	"go/ast"
+	"go/parser"
 	"go/printer"
 	"go/token"
 	"go/types"
@@ -224,6 +225,45 @@ func main() {
 				changed = true
 				return true
 			})
+			// 3. write log: every Set/Delete that reaches the committed tree reports itself (C01 compares the
+			// ORDER of insertions and deletions between replicas: the tree's shape, and with it the root hash,
+			// depends on it)
+			if rel == "storage/chainstate.go" {
+				hooked := 0
+				for _, d := range f.Decls {
+					fd, ok := d.(*ast.FuncDecl)
+					if !ok || fd.Recv == nil || len(fd.Recv.List) != 1 || len(fd.Recv.List[0].Names) != 1 || fd.Body == nil {
+						continue
+					}
+					star, ok := fd.Recv.List[0].Type.(*ast.StarExpr)
+					if !ok {
+						continue
+					}
+					if id, ok := star.X.(*ast.Ident); !ok || id.Name != "ChainState" {
+						continue
+					}
+					if (fd.Name.Name != "Set" && fd.Name.Name != "Delete") || len(fd.Type.Params.List) == 0 || len(fd.Type.Params.List[0].Names) == 0 {
+						continue
+					}
+					recv := fd.Recv.List[0].Names[0].Name
+					key := fd.Type.Params.List[0].Names[0].Name
+					src := fmt.Sprintf("verifseam.Wrote([]byte(%s), false, %s.Delivered.Has([]byte(%s)))", key, recv, key)
+					if fd.Name.Name == "Delete" {
+						src = fmt.Sprintf("verifseam.Wrote([]byte(%s), true, true)", key)
+					}
+					ex, err := parser.ParseExpr(src)
+					if err != nil {
+						die("write-log hook: %v", err)
+					}
+					fd.Body.List = append([]ast.Stmt{&ast.ExprStmt{X: ex}}, fd.Body.List...)
+					hooked++
+					changed = true
+				}
+				if hooked != 2 {
+					die("write-log hook: expected ChainState.Set and ChainState.Delete in storage/chainstate.go, hooked %d", hooked)
+				}
+				sites = append(sites, site{File: rel, Line: 0, Kind: "write-log"})
+			}
 			if !changed {
 				continue
 			}
